@@ -262,6 +262,30 @@ class _mark_ignore_name(ast.NodeTransformer):
         return new_node
 
 
+def _free_names(node: ast.AST, bound: frozenset = frozenset()) -> set:
+    "Names used in `node` that no lambda or comprehension inside `node` binds"
+    if isinstance(node, ast.Name):
+        return set() if node.id in bound else {node.id}
+    if isinstance(node, ast.Lambda):
+        return _free_names(node.body, bound | {a.arg for a in node.args.args})
+    if isinstance(node, (ast.ListComp, ast.GeneratorExp, ast.SetComp, ast.DictComp)):
+        result: set = set()
+        inner = bound
+        for gen in node.generators:
+            result |= _free_names(gen.iter, inner)
+            inner = inner | {n.id for n in ast.walk(gen.target) if isinstance(n, ast.Name)}
+            for cond in gen.ifs:
+                result |= _free_names(cond, inner)
+        elts = [node.key, node.value] if isinstance(node, ast.DictComp) else [node.elt]
+        for e in elts:
+            result |= _free_names(e, inner)
+        return result
+    result = set()
+    for child in ast.iter_child_nodes(node):
+        result |= _free_names(child, bound)
+    return result
+
+
 class _rewrite_captured_vars(ast.NodeTransformer):
     def __init__(self, cv: inspect.ClosureVars):
         self._lookup_dict: Dict[str, Any] = dict(cv.nonlocals)
@@ -287,6 +311,10 @@ class _rewrite_captured_vars(ast.NodeTransformer):
                 # like that.
                 return as_literal(v)
             elif callable(v) and ((lm := safe_parse_wrapper(v)) is not None):
+                # A name the helper uses from its own scope must not end up under a parameter or
+                # loop variable of the same name at this call site: leave such a call by name.
+                if any(self.is_arg(n) for n in _free_names(lm)):
+                    return node
                 return lm
             else:
                 # If it is a local function, we need to parse it as an AST
